@@ -372,7 +372,7 @@ func ruleEDecodeAdvance(p *Program, r *Reporter) {
 				switch {
 				case strings.HasPrefix(full, "unicode/utf8.Decode") && strings.HasSuffix(full, "InString"):
 					arg = c.Call.Args[0]
-				case strings.HasSuffix(full, ".decodeRune") && len(c.Call.Args) == 2:
+				case (strings.HasSuffix(full, ".decodeRune") || calleeOf(&c.Call) != nil && calleeOf(&c.Call) == p.RoleFunc("lexer", "Lexer", "decodeRune")) && len(c.Call.Args) == 2:
 					arg = c.Call.Args[1]
 				default:
 					continue
